@@ -16,7 +16,9 @@ RULE = ("cases = (generated schema, composite type, generated value, byte order)
         "that no padding follows them; non-trivial = the type (transitively) has an optional, union, "
         "counted array, nested composite or enum; distinct = distinct hash of (schema text, type, value)")
 ASSUME = ["NaN floats are not generated (they do not compare equal)",
-          "r32 values are generated exactly representable in 32 bits"]
+          "r32 values are generated exactly representable in 32 bits",
+          "arrays and bytes fields hold at most 65536 elements - the bound on element counts that the decoder enforces "
+          "and C06 relies on (longer ones encode but are refused by decode)"]
 NONTRIVIAL = {'optional', 'union', 'dynamic_array', 'ext_array', 'limited', 'nested_composite', 'enum'}
 
 
